@@ -179,11 +179,13 @@ func checkRoundTrip(c *vlib.Ctx, width int, n uint64) {
 	}
 	// unpack with the same and all wider widths, with and without trailing bytes
 	for _, u := range unpackers {
-		if n > u.max {
-			continue
-		}
 		for _, tail := range [][]byte{nil, {0x00}, {0xff, 0x80}} {
 			in := append(append([]byte{}, packed...), tail...)
+			if n > u.max {
+				// the encoding of a value beyond the unpacker's width must be refused (too-large-is-error)
+				checkUnpack(c, u, in)
+				continue
+			}
 			v, k, err := uint64(0), 0, error(nil)
 			p, stack := vlib.Catch(func() { v, k, err = u.f(in) })
 			w := witness{Func: u.name, Input: in, Hex: fmt.Sprintf("%x", in), Value: n}
@@ -266,7 +268,7 @@ func boundaryValues() []uint64 {
 
 func main() {
 	vlib.Main("C10", "model_checking", func(c *vlib.Ctx) {
-		c.Rule("exhaustive enumeration: all 2^8/2^16 values, 2^24 low range + every value within 3 of every power of two for 32/64 bit (round trip, minimality, EncodedSize, trailing bytes); " +
+		c.Rule("exhaustive enumeration: all 2^8/2^16 values, 2^24 low range + every value within 3 of every power of two for 32/64 bit (round trip, minimality, EncodedSize, trailing bytes; each encoding is also given to every narrower unpacker, which must refuse it); " +
 			"all byte strings of length<=3 and all strings of length 4..10 over {00,01,7f,80,ff} for every UnpackN; GetNextBlock over all byte strings <=3, 5-symbol strings <=7 and every boundary length prefix x short payload; " +
 			"non-trivial = distinct byte strings that start a multi-byte varint (first byte >= 0x80, length >= 2), counted while enumerating; each input evaluated against the textbook reference")
 		c.Assume("reference decoder treats non-minimal (zero-padded) encodings as 'value or error' since the property only fixes the packed form to be minimal")
